@@ -216,6 +216,9 @@ func (pool *BlockPool) RedoRequest(height int64) {
 
 // TODO: ensure that blocks come in order for each peer.
 func (pool *BlockPool) AddBlock(peerID string, block *types.Block, blockSize int) {
+	if block == nil || block.Header == nil || block.Data == nil || block.LastCommit == nil {
+		return // not a complete block: ignore (the sync loop dereferences all three parts)
+	}
 	pool.mtx.Lock()
 	defer pool.mtx.Unlock()
 
